@@ -239,13 +239,13 @@ def expected_cell(typ, tfill, fillgiven, v):
 
 
 def gen_cases(ctx):
-    for i in range(ctx.share(ctx.scale(700, 24000))):
+    for i in range(ctx.share(ctx.scale(700, 200000))):
         rng = ctx.rng(1, i)
         yield {"kind": "roundtrip", "seed": int(rng.integers(1 << 31)), "big": bool(ctx.tier == "thorough" and rng.random() < 0.004)}
-    for i in range(ctx.share(ctx.scale(300, 6000))):
+    for i in range(ctx.share(ctx.scale(300, 50000))):
         rng = ctx.rng(2, i)
         yield {"kind": "fault", "seed": int(rng.integers(1 << 31)), "fault": FAULTS[i % len(FAULTS)]}
-    for i in range(ctx.share(ctx.scale(100, 3000))):
+    for i in range(ctx.share(ctx.scale(100, 20000))):
         rng = ctx.rng(3, i)
         yield {"kind": "terse", "seed": int(rng.integers(1 << 31))}
     if ctx.shard == 0:
